@@ -7,7 +7,7 @@ HERE = os.path.dirname(os.path.dirname(os.path.abspath(__file__)))
 
 # id -> (technique, level text, level note, design ref)
 AI = "abstract interpretation of the package's own source over a term domain (sympy terms, units as algebra, if-conversion with path facts; the library is parsed, never imported or run)"
-RS = " Also rule RS: derived-state coherence dataflow (a memoised/derived attribute or functools.cached_property must be reset wherever the state it was computed from is assigned) and rule RC (every model signal is also pushed through its class's own constructor chain; enumerated state must be stored as given)."
+RS = " Also rule RS: derived-state coherence dataflow (a memoised/derived attribute or functools.cached_property must be reset wherever the state it was computed from is assigned; a memoised array must not be handed out by reference; a cache computed from the own numeric value of a Quantity/ndarray subclass goes stale under inherited in-place operators) and rule RC (every model signal is also pushed through its class's own constructor chain; enumerated state must be stored as given)."
 
 CHECKS = {
     "C01": (AI + " + sign domain on slice bounds + truth-table Boolean equality",
@@ -17,19 +17,19 @@ CHECKS = {
             "Decides the channel-label formula for all alignments and both parities (every radio class built through its own constructor chain, and after assigning freq_align through the setter), band edges, and that the labels of a frequency slice, of repeated/combined slices, of a trailing-axis selection and of a Stokes component selected by name - read back through the package's own channel_freqs property - equal the selected labels of the original. Not decided: Quantity round-off." + RS,
             "real-number semantics; sympy", "4/C02"),
     "C03": (AI + " with explicit per-element arrays (indexed Sel terms, store sets, explicit np.where masks)",
-            "Decides the phase-ramp term ifft(fft(x)*exp(-2 pi i s k/N)) for scalar, Quantity and per-element array shifts (axis alignment of the shift read off the result term), NumPy and Dask branches, zero-fill coverage of the returned data for every broadcastable shift shape incl. sizes beyond every size threshold the code compares against, crop bounds, unchanged metadata, refusal of too many shift axes. Not decided: DFT accuracy." + RS,
+            "Decides the phase-ramp term ifft(fft(x)*exp(-2 pi i s k/N)) for scalar, Quantity and per-element array shifts (axis alignment of the shift read off the result term), NumPy and Dask branches, zero-fill coverage of the returned data for every broadcastable shift shape incl. sizes beyond every size threshold the code compares against, crop bounds, the zero-fill extent of scalar shifts at chosen magnitudes (up to 1e5 samples with a small fraction, where a relative-tolerance snap would change it), unchanged metadata, refusal of too many shift axes. Not decided: DFT accuracy." + RS,
             "API table; real-number semantics; numpy basic-index store semantics", "4/C03"),
     "C04": (AI + " with explicit per-element arrays (store sets, explicit masks)",
             "Decides the mixer term, transform pairing fft->fftshift->zeroing->ifftshift->ifft, zero-fill coverage of the returned data in bins for every broadcastable shift shape, unit handling of the shift, unchanged metadata; on ten exact whole-bin witnesses the zero-fill extent is evaluated in IEEE doubles (every operation of the source rounded to nearest-even) and must be the k wrapped bins; no third-party routine may overwrite an operand that is the caller's data. Not decided: value accuracy." + RS,
             "API table; real-number semantics", "4/C04"),
     "C05": (AI,
-            "Decides the transfer-function term including units and the constant K (|H| = 1 and H(DM)H(-DM) = 1 derived), per-channel chirp plumbing for NumPy and Dask signals (declared dtype/shape of the delayed chirp), the filtered data term, crop start/stop terms with clamping (compared in the unsaturated and the saturated regime), start-time advance, supplied-chirp agreement, that no deferred per-channel callable captures the loop variable by reference. Not decided: complex64 accuracy." + RS,
+            "Decides the transfer-function term including units and the constant K (|H| = 1 and H(DM)H(-DM) = 1 derived), per-channel chirp plumbing for NumPy and Dask signals (declared dtype/shape of the delayed chirp), the filtered data term, crop start/stop terms with clamping (compared in the unsaturated and the saturated regime), start-time advance, supplied-chirp agreement (also for a chirp held on the other back end than the signal), that no deferred per-channel callable captures the loop variable by reference. Not decided: complex64 accuracy." + RS,
             "units as positive symbols; sympy", "4/C05"),
     "C06": (AI + "; fixed-delay scenarios for the realignment",
             "Decides the delay law with units, antisymmetry/additivity, sample_delay = time_delay*rate for any DM unit, the per-channel realignment identity (symbolic delays: lo_i - crop = round(delay_i), own channel, equal lengths, in-range sources; fixed delay patterns: any slicing strategy - per channel, blocks, one slice - yields channel i over [crop+r_i, crop+r_i+N-max)), start-time advance, ledger. Not decided: Quantity rounding." + RS,
             "units as positive symbols; round as floor(x+1/2)", "4/C06"),
     "C07": (AI + " on a model of Phase objects; identical-argument recursion detection; record-array shape rules",
-            "Decides the routing necessary for two-double results: no never-copy constructor on non-array operands, every ufunc family of the statement built by from_angles from the separate int/frac parts in operand order with the physical factor/divisor, termination, two-part correction, refinement step, returned value and out= routing of the floor-divide family also for Phase divisors, imaginary phases with an exactly-zero part, storage of both parts for operands of any broadcast shape, the real/imaginary sign table (i*i = -1); day_frac is additionally folded on ~60 concrete adversarial operand vectors (witness refutation of order-dependent or lossy accumulation, not a proof). Not decided: correctness of the error-free transformations for all doubles." + RS,
+            "Decides the routing necessary for two-double results: no never-copy constructor on non-array operands, every ufunc family of the statement built by from_angles from the separate int/frac parts in operand order with the physical factor/divisor, termination, two-part correction, refinement step, returned value and out= routing of the floor-divide family also for Phase divisors, imaginary phases with an exactly-zero part, the real/imaginary flag of the result also when it is written into a supplied output Phase of the other kind, storage of both parts for operands of any broadcast shape, the real/imaginary sign table (i*i = -1); day_frac is additionally folded on ~60 concrete adversarial operand vectors (witness refutation of order-dependent or lossy accumulation, not a proof). Not decided: correctness of the error-free transformations for all doubles." + RS,
             "numpy>=2 copy=False semantics; astropy API table", "4/C07"),
     "C08": (AI + " on symbolic polyco text and a predictor-table model; CFG dominance; alias analysis of the table",
             "Decides that from_polyco builds exactly the tempo polynomial (all coefficient counts, D/E exponents, reference phase split, 60*F0, domain scale), TMID precision (text or two doubles into Time), scalar/array branch agreement for any index order, derivative order and unit, range-check acceptance condition and dominance, interval merging on concrete tables, that prediction methods never write the table, that the constructor hands the entries to the table in ascending TMID order whatever order they arrive in (the binary search over span ends relies on it). Not decided: 1e-8 accuracy of polynomial evaluation, root-finder convergence." + RS,
@@ -53,16 +53,16 @@ CHECKS = {
             "Decides, for every input, that no library statement writes to anything that may alias an argument's object, buffer or metadata, or an object kept by a memo table (private derived attributes of self are sanctioned and handed to rule RS; overwrite_* options of third-party routines are sinks; __array__(copy=True) returns fresh storage; stores into the elements of an explicit out= tuple are the sanctioned mutation)." + RS,
             "view/copy table for numpy/astropy/dask; third-party code does not write its inputs unless listed", "4/C14"),
     "C15": (AI + " on the Phase model; IEEE-double evaluation of association-preserving terms on near-tie vectors; constant folding of concrete doubles for renderings",
-            "Decides that comparisons and argmin/argmax difference the parts before adding (and select the exact extremum in doubles), lexsort keys, that min/max/sort select by the flat index in logical order, that the per-axis indices select along their own axis for every axis number (0 included), decimal parsing of 600+ spellings exactly, from_string kind consistency (whole-number imaginary strings included), to_string and fixed-point format() renderings of dyadic and sub-resolution values (sign of values in (-1, 0) included) and the round trip. Not decided: renderings of arbitrary non-dyadic fractions." + RS,
+            "Decides that comparisons and argmin/argmax difference the parts before adding (and select the exact extremum in doubles), lexsort keys, that min/max/sort select by the flat index in logical order and that the index producers flatten in logical C order, that the per-axis indices select along their own axis for every axis number (0 included), decimal parsing of 600+ spellings exactly, from_string kind consistency (whole-number imaginary strings included), to_string and fixed-point format() renderings of dyadic and sub-resolution values (sign of values in (-1, 0) included) and the round trip. Not decided: renderings of arbitrary non-dyadic fractions." + RS,
             "numpy.lexsort key order; CPython/NumPy shortest-repr of doubles", "4/C15"),
     "C16": (AI + " of constructors and setters on tables of valid/invalid arguments + who-may-write tables + signature agreement",
-            "Decides that every metadata setter validates before storing and converts failures to ValueError (also on both arms of undecided tests), constructor shape/dtype contracts incl. byte order, baseband chan_bw tied to sample_rate at creation and by every library operation evaluated, like()/container helpers reproduce every state attribute, private fields written only by their setter/constructor (or re-validated through the constructor of the target's own class), a Dask-backed out=/in-place target keeps a dtype of its class, no pickling hooks." + RS,
+            "Decides that every metadata setter validates before storing and converts failures to ValueError (also on both arms of undecided tests, on even and odd channel counts), constructor shape/dtype contracts incl. byte order, baseband chan_bw tied to sample_rate at creation and by every library operation evaluated, like()/container helpers reproduce every state attribute, private fields written only by their setter/constructor (or re-validated through the constructor of the target's own class), a Dask-backed out=/in-place target keeps a dtype of its class, no pickling hooks." + RS,
             "astropy validators behave as documented; numpy casting table by introspection", "4/C16"),
     "C17": (AI + " of __array_ufunc__ with an abstract ufunc + protocol signature rules",
             "Decides refusal of non-call methods and matmul before unwrapping, that signals among inputs/outs are replaced by their data and every other operand reaches the ufunc untouched (Python scalars stay scalars, Quantities keep their class), single call, kwargs forwarded (also together with out=), the promoted result dtype kept by the wrapper, rewrap in the dispatching signal's class or return of the given out object, Dask-backed out= targets left as NumPy would leave them (own dtype, or TypeError), __array__ protocol incl. copy=True returning a new array. Not decided: per-ufunc values." + RS,
             "NumPy __array_ufunc__/__array__ protocol", "4/C17"),
     "C19": (AI + " on explicit arrays of symbols with exact DFT sums",
-            "Decides the definition for N = 1..9 (16 thorough) and ranks 1-3 on every axis: out[m] = (-1)^m analytic(x)[2m] with the one-sided weights, (-1)^m Re(out[m]) = x[2m], ceil(N/2) samples, other axes in place (also when empty), whatever transform pair is used; the symbolic-N result term, dtype rule, refusals, the factor-2 agreement with the readers, no overwrite_* option on caller data, no process-wide hook (scipy.fft backend registration, monkey-patching) installed by the package. Not decided: FFT round-off; N beyond the enumerated range is covered by the symbolic term rule only for the fft/ifft formulation." + RS,
+            "Decides the definition for N = 1..9 (16 thorough) and ranks 1-3 on every axis: out[m] = (-1)^m analytic(x)[2m] with the one-sided weights, (-1)^m Re(out[m]) = x[2m], ceil(N/2) samples, other axes in place (also when empty), whatever transform pair is used; the symbolic-N result term, a double-precision mixer ramp whatever the data's precision, dtype rule, refusals, the factor-2 agreement with the readers, no overwrite_* option on caller data, no process-wide hook (scipy.fft backend registration, monkey-patching) installed by the package. Not decided: FFT round-off; N beyond the enumerated range is covered by the symbolic term rule only for the fft/ifft formulation." + RS,
             "complex-number semantics; closed-form constants compared at 40 digits", "4/C19"),
     "C20": (AI + " of the module __getattr__ dispatcher + introspection of installed scipy/dask + exact small-instance STFT/ISTFT",
             "Decides the fourteen-name table, AttributeError for other names, that each dispatcher applies the same-named scipy transform (NumPy) resp. fft_wrap of it (Dask) with arguments unchanged and a declared dtype equal to scipy's for eleven input dtypes; STFT definition, ISTFT(STFT) = id on explicit arrays, sample-rate/start-time/label identities for both parities and all alignments (single- and dual-polarisation input), no overwrite_* option on caller data, no process-wide hook into scipy.fft, and that neither transform writes into the signal it is given (in-place operators through reshape/swapaxes views). Not decided: numerical equality with the reference transform." + RS,
